@@ -13,19 +13,24 @@
    the one call issued that its answer reproduces the reshaped tensor, U diag(sigma) V = M (at tol = 0 this is C12's
    statement about split_matrix_svd), and for 'sqrt' that ksqrt(sigma_l)^2 = sigma_l.
 
-   Not proved here (validated on the implementation by harness/props/c03.py only):
-     - the sparse_format=True path is modelled literally ([as_matrix_sparse], reshape / hstack index gymnastics) and
-       compared bit for bit with the implementation and with [as_matrix] on every generated case; the full statement
-         forall o, mpo_wf o = true -> 0 < length (o_qd o) -> as_matrix_sparse (length (o_qd o)) (o_A o) = as_matrix (o_A o)
-       is proved only for a single site ([C03_as_matrix_sparse_partial], L = 1); for L >= 2 it is evaluated on the
-       example below and on the generated cases, not proved;
-     - MPS.from_vector (TT-SVD loop around numpy.linalg.svd and retained_bond_indices) is not modelled:
-         forall d L v, length v = d^L -> valid SVD answers -> as_vector (from_vector d L v 0) = Some v
-       is checked on the implementation only (1e-10 relative). *)
+   MPO.as_matrix(sparse_format=True): the reshape / hstack path is modelled literally ([as_matrix_sparse]); it is proved equal
+   to the dense path for every L >= 1, d >= 1 and every bond profile ([C03_as_matrix_sparse]; loop invariant in
+   Proofs/MPSOpsSparseFull.v), and compared bit for bit with the implementation on every generated case.
+
+   MPS.from_vector (Model/FromVector.v: TT-SVD loop; numpy.linalg.svd and the unstable numpy.argsort inside
+   retained_bond_indices are oracle arguments indexed by the loop iteration, scalars in the complexification of an arbitrary
+   ordered field): [C03_from_vector_exact] proves for every n >= 1, d >= 1 and every vector of length d^n (zero or not) that at
+   tol = 0 the model succeeds, returns a well-formed MPS with all quantum numbers zero, and as_vector of it is the input vector,
+   provided every answer of the SVD oracle to a call the loop issues has LAPACK's shapes and satisfies U diag(s) V = M
+   ([fv_svd_ok]; orthonormality and s >= 0 are not needed); NOTHING is assumed about the argsort oracle.  The branch
+   `if len(idx) == 0: idx = [0]` (zero vector) is part of the model.
+   Not proved here: from_vector with tol > 0 (the error bound is C13's subject; the truncating branch of the model is compared
+   with the implementation by replay); d = 0 and nsites = 0 raise IndexError in the code and are the error value of the model. *)
 From Coq Require Import ZArith List Bool Lia.
 From PT Require Import Base.Scalar Base.BigSum Base.Mx Model.Tensor Model.MPSOps.
 From PT Require Import Proofs.MPSOpsBase Proofs.MPSOpsAdd Proofs.MPSOpsMul Proofs.MPSOpsDense Proofs.MPSOpsTop.
-From PT Require Import Proofs.MPSOpsShape Proofs.MPSOpsLaws Proofs.MPSOpsSplit Proofs.MPSOpsSparse.
+From PT Require Import Proofs.MPSOpsShape Proofs.MPSOpsLaws Proofs.MPSOpsSplit Proofs.MPSOpsSparse Proofs.MPSOpsSparseFull.
+From PT Require Import Base.Field Model.BondOps Model.FromVector Proofs.FromVectorExact.
 Import ListNotations.
 
 (* ---- sums and differences ---- *)
@@ -152,11 +157,41 @@ Theorem C03_apply_operator_dense : forall (R : cring) (o : mpo R) (p : mps R),
 Proof. exact apply_operator_dense. Qed.
 Print Assumptions C03_apply_operator_dense.
 
-(* ---- dense = sparse matrix form: proved for L = 1 only (see the header for the full statement) ---- *)
-Theorem C03_as_matrix_sparse_partial : forall (R : cring) (d : nat) (W : osite R),
+(* ---- dense = sparse matrix form, for every number of sites, physical dimension and bond profile ---- *)
+Theorem C03_as_matrix_sparse : forall (R : cring) (o : mpo R),
+  mpo_wf o = true -> (0 < length (o_qd o))%nat ->
+  as_matrix_sparse (length (o_qd o)) (o_A o) = as_matrix (o_A o).
+Proof. exact as_matrix_sparse_dense. Qed.
+Print Assumptions C03_as_matrix_sparse.
+
+(* the single-site case in terms of the tensor alone (kept from the earlier partial result) *)
+Theorem C03_as_matrix_sparse_single : forall (R : cring) (d : nat) (W : osite R),
   osite_shape d 1 1 W = true -> (0 < d)%nat -> as_matrix_sparse d [W] = as_matrix [W].
 Proof. exact as_matrix_sparse_single. Qed.
-Print Assumptions C03_as_matrix_sparse_partial.
+Print Assumptions C03_as_matrix_sparse_single.
+
+(* ---- from_vector at tol = 0 reproduces the vector ---- *)
+Theorem C03_from_vector_exact : forall (F : ofield)
+    (dsvd : nat -> mx (Cx F) -> mx (Cx F) * list F * mx (Cx F)) (srt : nat -> list F -> list nat)
+    (d n : nat) (vec : list (Cx F)),
+  (0 < d)%nat -> (0 < n)%nat -> length vec = (d ^ n)%nat ->
+  Forall (fun c => fv_svd_ok (snd c) (dsvd (fst c) (snd c))) (from_vector_calls dsvd srt d n vec (f0 F)) ->
+  exists p, from_vector dsvd srt d n vec (f0 F) = Some p /\
+    mps_wf p = true /\ length (m_A p) = n /\
+    m_qd p = repeat 0%Z d /\ (forall q, In q (m_qD p) -> forall x, In x q -> x = 0%Z) /\
+    as_vector (m_A p) = Some vec.
+Proof. exact from_vector_exact. Qed.
+Print Assumptions C03_from_vector_exact.
+
+(* the contract of one SVD answer, spelled out: LAPACK's shapes and U diag(s) V = M entrywise *)
+Theorem C03_fv_svd_ok_spec : forall (F : ofield) (M u vt : mx (Cx F)) (s : list F),
+  fv_svd_ok M (u, s, vt) <->
+  (let k := Nat.min (nr M) (nc M) in
+   nr u = nr M /\ nc u = k /\ length s = k /\ nr vt = k /\ nc vt = nc M /\
+   forall i j, (i < nr M)%nat -> (j < nc M)%nat ->
+     sumn k (fun l => kmul (Cx F) (kmul (Cx F) (get u i l) (cof (nth l s (f0 F)))) (get vt l j)) = get M i j).
+Proof. intros. reflexivity. Qed.
+Print Assumptions C03_fv_svd_ok_spec.
 
 (* ---- merging two neighbouring tensors undoes a split, for every way of distributing the singular values
         (distr: 0 = 'left', 1 = 'right', >= 2 = 'sqrt') ---- *)
@@ -289,3 +324,22 @@ Example C03_merge_split_nonvacuous :
                         site_eqb (merge_mps_tensor_pair A0 A1) ex_A) [0; 1; 2]%nat &&
   some_nonzero (concat (dat ex_M)) = true.
 Proof. vm_compute. reflexivity. Qed.
+
+(* from_vector: a rank-2 vector (d = 2, n = 2) with rational SVD answers and an argsort answer that is not sorted, and the zero
+   vector (all singular values 0: the branch idx = [0]); the oracle answers meet the contract on the issued calls, the model
+   succeeds with bond dimensions (1, 2, 1) resp. (1, 1, 1) and as_vector gives back the vector *)
+Example C03_from_vector_nonvacuous :
+  Forall (fun c => fv_svd_ok (snd c) (fvx_svd (fst c) (snd c))) (from_vector_calls fvx_svd fvx_srt 2 2 fvx_vec (f0 QcF)) /\
+  Forall (fun c => fv_svd_ok (snd c) (fvx_svd0 (fst c) (snd c))) (from_vector_calls fvx_svd0 fvx_srt 2 2 fvx_zero (f0 QcF)) /\
+  match from_vector fvx_svd fvx_srt 2 2 fvx_vec (f0 QcF), from_vector fvx_svd0 fvx_srt 2 2 fvx_zero (f0 QcF) with
+  | Some p, Some z =>
+      mps_wf p && list_eqb zl_eqb (m_qD p) [[0]; [0; 0]; [0]]%Z &&
+      match as_vector (m_A p) with Some v => vec_eqb v fvx_vec | None => false end &&
+      mps_wf z && list_eqb zl_eqb (m_qD z) [[0]; [0]; [0]]%Z &&
+      match as_vector (m_A z) with Some v => vec_eqb v fvx_zero | None => false end
+  | _, _ => false end = true.
+Proof.
+  split; [apply (fv_call_okb_ok QcF); vm_compute; reflexivity|].
+  split; [apply (fv_call_okb_ok QcF); vm_compute; reflexivity|].
+  vm_compute. reflexivity.
+Qed.
